@@ -16,6 +16,7 @@ import GV.Proofs.FlatCorrect
 import GV.Proofs.FlatLabels
 import GV.Proofs.Segment
 import GV.Proofs.FlatTop
+import GV.Proofs.RunF
 
 namespace GV.Props.C02
 open GV.Ctrl GV.Flat GV.Blocking
@@ -83,6 +84,26 @@ theorem flatten_correct (E : Env σ) (forget : σ → σ) (hE : EnvStable E forg
     RunS E forget sched (flatten body) (flatten body) st none false 0 st' :=
   segmentation E forget sched (flatten body) (flatten_labels_nodup body) hE
     (flatten_exec E body (flatten_labels_nodup body) hev hg) ⟨[], rfl⟩ hst 0
+
+/-- **machine_exec_sound** — the executable machine the driver runs (`runF`, fuel-indexed) only produces runs of the
+    relational machine `RunS` the theorems are about. -/
+theorem machine_exec_sound (E : Env σ) (forget : σ → σ) (sched : Nat → Nat → σ → Nat) (code : List Instr)
+    (fuel : Nat) (suf : List Instr) (st : σ) (r : Option (Nat × Nat)) (c : Bool) (k ns : Nat) (o : σ) (k' ns' : Nat)
+    (h : runF E forget sched code fuel suf st r c k ns = some (o, k', ns')) :
+    RunS E forget sched code suf st r c k o :=
+  runF_sound E forget sched code fuel suf st r c k ns o k' ns' h
+
+/-- **interp_sound** — the fuel-indexed reference interpreter the driver runs only produces derivable results. -/
+theorem interp_sound (E : Env σ) (fuel : Nat) (s : Stmt) (st : σ) (g : Sig) (st' : σ)
+    (h : evalF E fuel s st = some (g, st')) : Eval E s st g st' :=
+  evalF_sound E fuel s st g st' h
+
+/-- **erase_correct** — P versus P′: inserting calls that do not change the store (the `yield(site)` statements and the
+    yields inside leaf callees) does not change the reference semantics; so "P′ under every schedule = P" follows
+    from `flatten_correct` applied to P′. -/
+theorem erase_correct (E : Env σ) (isY : Nat → Bool) (hY : ∀ f st, isY f = true → E.call f st = st)
+    {s : Stmt} {st : σ} {g : Sig} {st' : σ} (h : Eval E s st g st') : Eval E (eraseCalls isY s) st g st' :=
+  eval_erase E isY hY h
 
 /-! ### The saved frame -/
 
